@@ -42,6 +42,13 @@ KPOS = ("syscall_root_memory",
         "export.k.1 push.8 loc_store.0 mem_load.5 push.1 add mem_store.5 padw caller dropw loc_load.0 drop end\n")
 
 
+KNEG = [
+    ("dyncall_in_syscall", "proc.g push.5 drop end begin procref.g syscall.f dropw end", "export.f dyncall end\n"),
+    ("call_reached_by_dynexec_in_syscall", "proc.g push.5 drop end proc.h call.g end begin procref.h syscall.f dropw end", "export.f dynexec end\n"),
+    ("syscall_reached_by_dynexec_in_syscall", "proc.h syscall.k2 end begin procref.h syscall.f dropw end", "export.f dynexec end\nexport.k2 push.1 drop end\n"),
+]
+
+
 def run(tier, replay=None):
     ck = Check("C07", tier)
     ck.rule = "a case = one recorded execution (program, kernel, inputs) incl. negative scenarios; every row is validated"
@@ -60,7 +67,10 @@ def run(tier, replay=None):
         progs += progen.depth_sweep(depths=(0, 17, 18, 24) if thorough else (0, 17), groups=["control", "memory"], rng_seed=seed())
         progs += [{"src": s, "kernel": k, "inputs": list(range(1, 25)), "class": "pos:" + nm} for nm, s, k in POS]
         progs += [{"src": KPOS[1], "kernel": KPOS[2], "inputs": [1, 2, 3], "class": "pos:" + KPOS[0]}]
+        progs += vmtrace.callee_shape_programs()
         progs += [{"src": s, "kernel": None, "inputs": [], "adv": adv, "class": "neg:" + nm} for nm, s, adv in NEG]
+        # a syscall cannot create a new context, however the call / syscall is reached (execution_contexts.md)
+        progs += [{"src": s, "kernel": k, "inputs": [], "adv": [], "class": "neg:" + nm} for nm, s, k in KNEG]
     stats = {}
     for prof in ("release", "checked"):
         rec = vmtrace.record(progs, wd, prof)
